@@ -446,7 +446,11 @@ class ConditionEvaluator(ast.NodeVisitor):
                         typ,
                         exclude_any=exclude_any,
                     ),
-                    left_varmap={varname_node.id: constrain_value(val, constraint)},
+                    left_varmap={
+                        varname_node.id: constrain_value(
+                            subtract_unions(val, remaining), constraint
+                        )
+                    },
                     right_varmap={varname_node.id: remaining},
                 )
             return ConditionReturn(right_varmap={}, condition=NotCondition(condition))
